@@ -5,7 +5,7 @@
    DESIGN.md §5, F4.  The schedules are replayed on the implementation by the first
    corpus entries of tools/props/c10.py. *)
 From Coq Require Import List ZArith Bool Arith.
-From GZ Require Import C10.Model C10.ProofsP.
+From GZ Require Import C10.Model C10.ProofsT C10.ProofsP C10.ProofsL.
 Import ListNotations.
 Open Scope Z_scope.
 
@@ -270,4 +270,65 @@ Example never_closed_repair_returns_while_the_mapper_is_parked :
   let s := run c (init c) c106_sched in
   lib_stuck c s = true /\ map mpc (maps s) = [Fin; Gate [UWrite 20]]
   /\ result s = Some (OErr (ECancel 5)).
+Proof. vm_compute. repeat split; reflexivity. Qed.
+
+(* Seeded change C10-9: the three recover blocks become one deferred helper and the mapper worker's
+   defers end up in the order  wg.Done(); <-pool  BEFORE  failed++; panicChan.write(r).  On HEAD an
+   undelivered mapper panic keeps the WaitGroup held: the collector cannot close, the reducer goroutine
+   cannot finish, output cannot close - the caller can only see the panic (Props.panic_is_never_lost).
+   Variant: executeMappers' wg.Wait does not count mappers that carry a panic (their Done already
+   happened).  With the caller not yet at its select, everything else runs to its end, output closes
+   while the worker is still blocked in write, and a caller that takes the closed output returns
+   ErrReduceNoOutput: the user panic is swallowed, nothing was cancelled. *)
+Definition waits_for (p : pc) : bool := bd p && negb (is_unw p) && negb (is_pend p).
+Definition step_dbw (c : config) (s : state) (l : label) : option state :=
+  match l, execpc s with
+  | LExec _, EWait =>
+    if Nat.eqb (length (filter (fun m => waits_for (mpc m)) (maps s))) 0 then Some (set_exec s EClose) else None
+  | _, _ => step c s l
+  end.
+Fixpoint run_dbw (c : config) (s : state) (sched : list label) : state :=
+  match sched with
+  | [] => s
+  | l :: tl => match step_dbw c s l with Some s1 => run_dbw c s1 tl | None => run_dbw c s tl end
+  end.
+
+Definition c109_cfg : config :=
+  mkCfg VFixed false 2%nat [USend 1] (fun _ => [UPanic 9]) [URecvAll] false.
+(* the caller does not move while the generator, the dispatcher, the mapper and the reducer run as far
+   as they can; then it takes the closed output (twice: select, deferred loop) *)
+Definition c109_sched : list label :=
+  rep 8 [LGen; LExec false] ++ rep 4 [LMap 0] ++ rep 8 [LExec true; LExec false; LRed]
+  ++ [LMain BOut; LMain BOut; LMain BOut] ++ rep 6 (LMain BPanic :: LMain BOut :: others).
+
+Theorem done_before_write_loses_panic :
+  let s := run_dbw c109_cfg (init c109_cfg) c109_sched in
+  g_panics s = [PUser 9] /\ g_cancels s = [] /\ ctx_done s = false
+  /\ result s = Some ONoOutput /\ clean s = true.
+Proof. vm_compute. repeat split; reflexivity. Qed.
+
+Example real_order_reraises_the_panic :
+  let s := run c109_cfg (init c109_cfg) c109_sched in
+  g_panics s = [PUser 9] /\ result s = Some (OPanic (PUser 9)) /\ clean s = true.
+Proof. vm_compute. repeat split; reflexivity. Qed.
+
+(* Why Props.panic_is_never_lost assumes a generator that does not panic (a model-level observation
+   about the unchanged code, not reproducible with gates: the dispatcher must be preempted between
+   spawning a mapper and re-reading `failed`).  The generator's panic wins the CAS and blocks in
+   panicChan.write before close(source) - it holds the SOURCE, not the WaitGroup.  If a mapper then
+   panics, it loses the CAS, sets `failed` and does wg.Done; a dispatcher that is at its loop head sees
+   `failed`, wg.Wait passes, the collector closes, the reducer finishes and output closes while the
+   generator is still blocked: a caller that is not yet at its select may take the closed output. *)
+Definition gpo_cfg : config :=
+  mkCfg VFixed false 2%nat [USend 1; UPanic 3] (fun _ => [UPanic 9]) [URecvAll] false.
+Definition gpo_sched : list label :=
+  [LGen; LExec false; LExec false; LGen; LExec false]       (* item 1 handed over; dispatcher back at its loop head *)
+  ++ rep 3 [LGen] ++ rep 5 [LMap 0]                        (* generator panics and blocks; mapper panics, Done *)
+  ++ rep 8 [LExec true; LExec false; LRed]
+  ++ [LMain BOut; LMain BOut; LMain BOut] ++ rep 6 (LMain BPanic :: LMain BOut :: others).
+
+Theorem generator_panic_can_be_overtaken :
+  let s := run gpo_cfg (init gpo_cfg) gpo_sched in
+  g_panics s = [PUser 3; PUser 9] /\ g_cancels s = [] /\ ctx_done s = false
+  /\ result s = Some ONoOutput /\ clean s = true.
 Proof. vm_compute. repeat split; reflexivity. Qed.
